@@ -64,6 +64,7 @@ func (prog *Program) MethodValue(sel *types.Selection) *Function {
 			needsPromotion := len(sel.Index()) > 1
 			needsIndirection := !isPointer(recvType(obj)) && isPointer(T)
 			if needsPromotion || needsIndirection {
+				verifEvent("creating", &b, nil)
 				fn = createWrapper(prog, toSelection(sel), nil)
 				fn.buildshared = b.shared()
 				b.enqueue(fn)
@@ -119,6 +120,7 @@ func (prog *Program) objectMethod(obj *types.Func, targs []types.Type, b *builde
 	defer prog.objectMethodsMu.Unlock()
 	fn, ok := prog.objectMethods[obj]
 	if !ok {
+		verifEvent("creating", b, nil)
 		fn = createFunction(prog, obj, obj.Name(), nil, nil, "")
 		fn.Synthetic = "from type information (on demand)"
 		fn.buildshared = b.shared()
